@@ -1092,3 +1092,55 @@ Lemma dest_of_ino_bound A p e : alookup p (dest_of A) = Some e -> de_ino e < N.o
 Proof.
   apply (dest_from_ino_bound A 0 [] (N.of_nat (length A))); [discriminate|lia].
 Qed.
+
+(* ---------------------------------------------------------------- a second synchronisation *)
+Lemma same_file_set_path d a p b : same_file d (set_path a p) b = same_file d a b.
+Proof. destruct d; reflexivity. Qed.
+
+Lemma Forall2_map_l {X} (R : X -> X -> Prop) (f : X -> X) l :
+  (forall x, In x l -> R (f x) x) -> Forall2 R (map f l) l.
+Proof.
+  induction l as [|x l IH]; intros Hl; simpl; constructor.
+  - apply Hl. left; auto.
+  - apply IH. intros y Hy. apply Hl. right; auto.
+Qed.
+
+(* after a transfer from an honest sender the destination, listed again, shows at every path
+   the identity key of the source: a second synchronisation of the unchanged source requests
+   nothing, notifies nothing and touches nothing *)
+Theorem resync_after_transfer_noop_proof (H : bytes -> bytes) (hdr : stat -> bytes) d A B :
+  wf_listing (map fst A) -> wf_listing (map fst B) -> links_ok B -> identity_faithful d A B ->
+  links_meta B ->
+  let r := receive_abs H hdr Fresh d A B in
+  let A' := dest_listing B (ds_map r) in
+  (forall p, (exists x, alookup p (ds_map r) = Some x) <-> (exists e, In e A' /\ st_path (fst e) = p)) /\
+  receive_abs H hdr Fresh DMetadata A' B =
+  {| ds_map := dest_of A'; ds_reqs := []; ds_notifs := []; ds_changes := []; ds_err := false |}.
+Proof.
+  intros HwA HwB Hl Hf Hm. cbv zeta.
+  destruct (receive_fresh_proof H hdr d A B HwA HwB Hl Hf Hm) as (_ & _ & Hv & _). cbv zeta in Hv.
+  destruct HwB as [HsB HcB].
+  set (R := ds_map (receive_abs H hdr Fresh d A B)) in *.
+  (* what the listing holds for an entry of B *)
+  assert (Hent : forall sb bb, In (sb, bb) B ->
+            exists x, alookup (st_path sb) R = Some x /\ same_file DMetadata (de_stat x) sb = true).
+  { intros sb bb Hin. specialize (Hv (st_path sb)).
+    pose proof (efind_in_sorted B (sb, bb) HsB Hin) as Ef. simpl in Ef. rewrite Ef in Hv.
+    destruct (alookup (st_path sb) R) as [x|]; [|destruct Hv]. exists x. split; auto. apply Hv. }
+  assert (Hpath : forall e, In e B ->
+            st_path (fst (match alookup (st_path (fst e)) R with
+                          | Some x => (set_path (de_stat x) (st_path (fst e)), de_bytes x)
+                          | None => e end)) = st_path (fst e)).
+  { intros e _. destruct (alookup (st_path (fst e)) R); reflexivity. }
+  split.
+  - intros p. split.
+    + intros [x Hx]. specialize (Hv p). rewrite Hx in Hv.
+      destruct (efind p B) as [e|] eqn:Ef; [|destruct Hv]. apply efind_some in Ef. destruct Ef as [He Ep].
+      eexists. split; [unfold dest_listing; apply in_map; exact He|]. rewrite Hpath; auto.
+    + intros (e' & He' & Ep). unfold dest_listing in He'. apply in_map_iff in He'.
+      destruct He' as ([sb bb] & <- & Hin). rewrite Hpath in Ep by auto. simpl in Ep. subst p.
+      destruct (Hent sb bb Hin) as (x & Hx & _). eauto.
+  - apply receive_resync_noop_proof. unfold dest_listing. apply Forall2_map_l.
+    intros [sb bb] Hin. simpl fst. destruct (Hent sb bb Hin) as (x & Hx & Hs). rewrite Hx. cbn [fst snd].
+    split; [reflexivity|]. rewrite same_file_set_path. exact Hs.
+Qed.
